@@ -50,10 +50,11 @@ type c30Batch struct {
 }
 
 type c30Wire struct {
-	Kind    string     `json:"kind"` // ipc | z | trunc | append | junk | upload | rawupload
+	Kind    string     `json:"kind"` // ipc | z | trunc | cutat | append | junk | upload | rawupload
 	Batches []c30Batch `json:"batches,omitempty"`
 	Inner   *c30Wire   `json:"inner,omitempty"`
-	N       int        `json:"n,omitempty"`    // trunc: bytes removed from the end
+	N       int        `json:"n,omitempty"`    // trunc: bytes removed from the end; cutat: bytes kept of message K
+	K       int        `json:"k,omitempty"`    // cutat: message index (0 = schema, -1 = end-of-stream marker)
 	Junk    string     `json:"junk,omitempty"` // append / junk (hex)
 }
 
@@ -347,16 +348,82 @@ type c30Mat struct {
 	upT  string
 	raw  []byte // uploaded object, content-decoded
 	rawT string
+	framing string // tag of the last non-stream object rendered
 }
 
 func (m *c30Mat) add(term string, data []byte) {
 	m.tbl = append(m.tbl, Pair(term, c30B(c30Sha(data))))
 }
 
-func (m *c30Mat) other(data []byte) string {
+// other renders bytes that are not (known to be) an intact stream. framed says whether the
+// framing guard must let them through; it is derived from the message boundaries of the
+// stream the bytes were cut from (c30FramedAt), never from the code under test. When nothing
+// is known about the bytes and arrow-go cannot open them either, the flag cannot influence
+// the outcome (parse error both ways) and is reported as false.
+func (m *c30Mat) other(data []byte, framed, known bool) string {
 	m.tag++
 	recs, ok := c30Decode(data)
-	return "(C30.SOther " + N(uint64(m.tag)) + " " + Opt(ok, c30CoqBatches(recs)) + ")"
+	if ok && !known {
+		panic("c30: arrow reads bytes whose framing the harness cannot judge")
+	}
+	m.framing = "framing:bad"
+	if framed {
+		m.framing = "framing:ok"
+	}
+	return "(C30.SOther " + N(uint64(m.tag)) + " " + Bool(framed) + " " + Opt(ok, c30CoqBatches(recs)) + ")"
+}
+
+// c30Bounds returns the offsets at which the encapsulated messages of an intact IPC stream
+// start (schema, each record batch, the end-of-stream marker), or nil when data is not
+// byte-for-byte the stream arrow-go writes for what it reads from it.
+func c30Bounds(data []byte) []int {
+	defer func() { recover() }()
+	rd, err := ipc.NewReader(bytes.NewReader(data), ipc.WithAllocator(memory.NewGoAllocator()))
+	if err != nil {
+		return nil
+	}
+	defer rd.Release()
+	var recs []arrow.RecordBatch
+	for rd.Next() {
+		r := rd.RecordBatch()
+		r.Retain()
+		recs = append(recs, r)
+	}
+	if rd.Err() != nil {
+		return nil
+	}
+	var sb bytes.Buffer
+	sw := ipc.NewWriter(&sb, ipc.WithSchema(rd.Schema()))
+	sw.Close()
+	bounds := []int{0, sb.Len() - 8}
+	var buf bytes.Buffer
+	w := ipc.NewWriter(&buf, ipc.WithSchema(rd.Schema()))
+	for _, r := range recs {
+		if err := w.Write(r); err != nil {
+			return nil
+		}
+		bounds = append(bounds, buf.Len())
+	}
+	w.Close()
+	if !bytes.Equal(buf.Bytes(), data) || buf.Len() != bounds[len(bounds)-1]+8 {
+		return nil
+	}
+	return bounds
+}
+
+// c30FramedAt: does the prefix data[:p] of an intact stream with these message starts pass a
+// guard that only refuses declared lengths exceeding what remains?  Yes iff the cut leaves
+// whole messages followed by at most 7 bytes of the next 8-byte prefix (or nothing is cut).
+func c30FramedAt(bounds []int, total, p int) bool {
+	if p >= total {
+		return true
+	}
+	for _, b := range bounds {
+		if b <= p && p <= b+7 {
+			return true
+		}
+	}
+	return false
 }
 
 // classify bytes the harness did not build itself (what the storage received)
@@ -365,7 +432,7 @@ func (m *c30Mat) describe(data []byte, enc string) (string, []byte, string) {
 	if enc == "zstd" {
 		d, err := c30ZDec.DecodeAll(data, nil)
 		if err != nil {
-			t := m.other(data)
+			t := m.other(data, false, false)
 			return t, data, t
 		}
 		raw = d
@@ -375,7 +442,7 @@ func (m *c30Mat) describe(data []byte, enc string) (string, []byte, string) {
 	if ok && bytes.Equal(c30Reencode(recs), raw) {
 		rawT = "(C30.SIpc " + c30CoqBatches(recs) + ")"
 	} else {
-		rawT = m.other(raw)
+		rawT = m.other(raw, false, false)
 	}
 	if enc == "zstd" {
 		return "(C30.SZ " + rawT + ")", raw, rawT
@@ -414,12 +481,12 @@ func (m *c30Mat) build(w *c30Wire) ([]byte, string) {
 		term = "(C30.SZ " + t + ")"
 	case "upload":
 		if m.up == nil {
-			return nil, m.other(nil)
+			return nil, m.other(nil, true, true)
 		}
 		return m.up, m.upT
 	case "rawupload":
 		if m.raw == nil {
-			return nil, m.other(nil)
+			return nil, m.other(nil, true, true)
 		}
 		return m.raw, m.rawT
 	case "trunc":
@@ -429,15 +496,39 @@ func (m *c30Mat) build(w *c30Wire) ([]byte, string) {
 			n = len(in)
 		}
 		data = in[:len(in)-n]
-		term = m.other(data)
-	case "append":
+		bounds := c30Bounds(in)
+		term = m.other(data, bounds != nil && c30FramedAt(bounds, len(in), len(data)), bounds != nil)
+	case "cutat": // keep everything before message K (negative: from the end) plus N bytes of it
+		in, _ := m.build(w.Inner)
+		bounds := c30Bounds(in)
+		if bounds == nil {
+			panic("c30: cutat needs an intact stream")
+		}
+		k := w.K
+		if k < 0 {
+			k += len(bounds)
+		}
+		if k < 0 {
+			k = 0
+		}
+		if k >= len(bounds) {
+			k = len(bounds) - 1
+		}
+		p := bounds[k] + w.N
+		if p > len(in) {
+			p = len(in)
+		}
+		data = in[:p]
+		term = m.other(data, c30FramedAt(bounds, len(in), p), true)
+	case "append": // junk after the end-of-stream marker is never looked at
 		in, _ := m.build(w.Inner)
 		j, _ := hex.DecodeString(w.Junk)
 		data = append(append([]byte(nil), in...), j...)
-		term = m.other(data)
+		bounds := c30Bounds(in)
+		term = m.other(data, bounds != nil, bounds != nil)
 	default: // junk
 		data, _ = hex.DecodeString(w.Junk)
-		term = m.other(data)
+		term = m.other(data, false, false)
 	}
 	m.add(term, data)
 	return data, term
@@ -582,6 +673,9 @@ func c30Run(in c30In) CaseOut {
 		tags = append(tags, "mode:res", tag)
 		if in.Origin != nil {
 			tags = append(tags, "origin:"+in.Origin.Kind)
+			if mat.framing != "" {
+				tags = append(tags, mat.framing)
+			}
 			if in.Origin.Kind == "ipc" {
 				tags = append(tags, c30Shape(in.Origin.Batches))
 			}
@@ -648,7 +742,7 @@ func c30Run(in c30In) CaseOut {
 		}
 	}
 	resT := "None"
-	serveTerm := "(C30.SOther 0%N None)"
+	serveTerm := "(C30.SOther 0%N false None)"
 	nontrivial := len(st.ups) > 0
 	if xerr == nil {
 		// edit the checksum on what came back, place the object, resolve
@@ -675,6 +769,9 @@ func c30Run(in c30In) CaseOut {
 			}
 			c30Objs.Store(path, c30Obj{data: data, enc: enc})
 			tags = append(tags, "serve:"+in.Serve.Kind)
+			if mat.framing != "" {
+				tags = append(tags, mat.framing)
+			}
 		} else if len(st.ups) > 0 {
 			c30Objs.Store(path, st.ups[0])
 			tags = append(tags, "serve:upload")
@@ -1067,6 +1164,27 @@ func c30Gen(r *rand.Rand, n int, tier string) []c30In {
 			out = append(out, c)
 		}
 	}
+	// truncated downloads: every message of the stream, cut at / inside / just past its
+	// 8-byte prefix; without a checksum, and with a checksum that matches the cut bytes
+	for _, shape := range []string{"D", "DL", "LD", "DD"} {
+		for k := 0; k <= len(shape)+1; k++ {
+			for _, off := range []int{0, 3, 4, 7, 8, 40} {
+				c := c30ResCase(r, shape)
+				c.Origin = &c30Wire{Kind: "cutat", Inner: c.Origin, K: k, N: off}
+				if (k+off)%2 == 0 {
+					c.PMeta = c.PMeta[:1]
+				}
+				out = append(out, c)
+			}
+		}
+	}
+	for _, comp := range []string{"", "zstd"} {
+		for _, n := range []int{1, 8, 9} {
+			c := round(small, sz, comp)
+			c.ShaMode, c.Serve = "drop", &c30Wire{Kind: "trunc", Inner: &c30Wire{Kind: "rawupload"}, N: n}
+			out = append(out, c)
+		}
+	}
 	if tier == "thorough" {
 		n0 := c30RowsFor(1 << 20)
 		for i := 0; i < 6; i++ {
@@ -1124,6 +1242,11 @@ func c30Gen(r *rand.Rand, n int, tier string) []c30In {
 			case 3:
 				c.Origin = &c30Wire{Kind: "trunc", Inner: c.Origin, N: 1 + r.Intn(200)}
 				if r.Intn(2) == 0 {
+					c.PMeta = c.PMeta[:1]
+				}
+			case 4:
+				c.Origin = &c30Wire{Kind: "cutat", Inner: c.Origin, K: r.Intn(k + 2), N: r.Intn(10)}
+				if r.Intn(3) > 0 {
 					c.PMeta = c.PMeta[:1]
 				}
 			}
